@@ -15,3 +15,21 @@ Theorem C08_src_run_scratchlen :
   src_run_scratchlen (Z.of_nat n) (Z.of_nat len) (Z.of_nat sl) = Z.of_nat (sl + (n + len - sl)).
 Proof. exact src_run_scratchlen_tie. Qed.
 Print Assumptions C08_src_run_scratchlen.
+
+(** scratch rows grow as the source says: [ChainData.__setitem__] extends by [index + 1 - len] when
+    the index lies beyond the data, [set_len] by [n - len] exactly when [len < n] (its ValueError
+    otherwise is swallowed by the callers and the rows stay) *)
+Theorem C08_src_scratch_setitem :
+  forall (T : Type) (l : scratch T) (i : nat) (v : T), (length l <= i)%nat ->
+  Z.of_nat (length (sc_set l i v)) = (Z.of_nat (length l) + src_setitem_extend (Z.of_nat i) (Z.of_nat (length l)))%Z.
+Proof. intros T l i v. apply src_setitem_extend_tie. Qed.
+Print Assumptions C08_src_scratch_setitem.
+
+Theorem C08_src_scratch_set_len :
+  forall (T : Type) (l : scratch T) (n : nat),
+  src_set_len_grows (Z.of_nat n) (Z.of_nat (length l)) = (length l <? n)%nat
+  /\ ((length l < n)%nat ->
+      Z.of_nat (length (sc_setlen l n)) = (Z.of_nat (length l) + src_set_len_amount (Z.of_nat n) (Z.of_nat (length l)))%Z)
+  /\ ((n <= length l)%nat -> sc_setlen l n = l).
+Proof. intros T l n. apply src_set_len_tie. Qed.
+Print Assumptions C08_src_scratch_set_len.
